@@ -263,15 +263,17 @@ class Heap:
 
         def ok(v):
             return z3.Implies(is_ref(v), z3.And(get_ref(v) >= 0, get_ref(v) < self.alloc))
+        # only cells of allocated objects: what lies above `alloc` is never read before it is written
+        live = r < self.alloc
         v = z3.Select(z3.Select(self.arr["lelem"], r), i)
-        out.append(z3.ForAll([r, i], ok(v), patterns=[v]))
+        out.append(z3.ForAll([r, i], z3.Implies(live, ok(v)), patterns=[v]))
         v = z3.Select(z3.Select(self.arr["dkeys"], r), i)
-        out.append(z3.ForAll([r, i], ok(v), patterns=[v]))
+        out.append(z3.ForAll([r, i], z3.Implies(live, ok(v)), patterns=[v]))
         v = z3.Select(z3.Select(self.arr["dval"], r), k)
-        out.append(z3.ForAll([r, k], ok(v), patterns=[v]))
+        out.append(z3.ForAll([r, k], z3.Implies(live, ok(v)), patterns=[v]))
         for f, a in self.fld.items():
             v = z3.Select(a, r)
-            out.append(z3.ForAll([r], z3.Implies(r >= 0, ok(v)), patterns=[v]))
+            out.append(z3.ForAll([r], z3.Implies(live, ok(v)), patterns=[v]))
         return out
 
     def frame_facts(self, old: "Heap", kinds, fields, may_modify):
